@@ -100,7 +100,7 @@ def programs(tier, mode):
         for a in A[:5]:
             for b in A[:5]:
                 out.append(make_prog('s', [a, ('send', 0.25)], [0.25],
-                                     second=(c2, [b, ('sendm',)], [0.25])))
+                                     second=(c2, [b, ('send', 0)], [0.25])))
     # sends from outside routines at instants where no task is due
     for a in A:
         for dt in (0.125, 0.375):
